@@ -89,6 +89,26 @@ def build_cdc(depth, buffered, K, kind="cdc"):
              cfg=dict(depth=depth, buffered=buffered, kind=kind), show=sb.showl, vcycles=40)
 
 
+def build_cdc_same_domain(buffered, K):
+    """cd_from == cd_to (a user domain, not "sys") next to an unrelated running `sys` clock: the element is a plain (optionally buffered)
+    connection living entirely in the user domain, so arbitrary `sys` edges in between must not matter"""
+    from litex.soc.interconnect import stream
+    lay = [("data", 2)]
+
+    class Top(Mon):
+        def __init__(self):
+            self.submodules.dut = dut = stream.ClockDomainCrossing(lay, cd_from="pix", cd_to="pix", buffered=buffered)
+            self.submodules.sb = CDCBoard(dut.sink, dut.source, "pix", "pix", wit_n=3)
+            # something that really lives in sys, so that the domain exists and ticks on its own
+            self.heartbeat = Signal(4, name_override="sys_heartbeat")
+            self.sync.sys += self.heartbeat.eq(self.heartbeat + 1)
+    top = Top()
+    sb = top.sb
+    return H("cdc_same_domain_pix%s" % ("_buffered" if buffered else ""), top, sb.free, rigid=[sb.N], assume=[sb.no_ovf], bad=dict(spurious=sb.bad_spurious, data=sb.bad_data),
+             witness=dict(tokens=sb.w_n), K=K, domains=["pix", "sys"], multiclock=True, meta=True, bad_tick=dict(spurious="pix", data="pix"), init_reset=sb.mregs,
+             funcs=FUNCS, cfg=dict(cd_from="pix", cd_to="pix", buffered=buffered, other_clock="sys"), show=sb.showl, vcycles=40)
+
+
 def build_cdc_rst(depth, K):
     """with_common_rst: reset pulses of either domain."""
     from litex.soc.interconnect import stream
@@ -241,6 +261,7 @@ def jobs(tier):
                 js.append(Job("cdc_d%d%s" % (depth, "b" if buffered else ""), build_cdc, dict(depth=depth, buffered=buffered, K=K if depth == 4 else 20), cost=100, timeout_s=3400))
         js.append(Job("asyncfifo_d4", build_cdc, dict(depth=4, buffered=False, K=K, kind="asyncfifo"), cost=60, timeout_s=3400))
         js.append(Job("uartfifo_d4", build_cdc, dict(depth=4, buffered=False, K=K, kind="uartfifo"), cost=60, timeout_s=3400))
+        js.append(Job("cdc_same_domain_pix_buffered", build_cdc_same_domain, dict(buffered=True, K=20), cost=10))
         js.append(Job("cdc_common_rst_d4", build_cdc_rst, dict(depth=4, K=20), cost=80, timeout_s=3400))
         for ch in ("aw", "w", "b", "ar", "r"):
             js.append(Job("axilite_cdc_%s" % ch, build_axil_cdc, dict(K=18, channel=ch), cost=50, timeout_s=3400))
@@ -252,6 +273,7 @@ def jobs(tier):
         for buffered in (False, True):
             js.append(Job("cdc_d4%s" % ("b" if buffered else ""), build_cdc, dict(depth=4, buffered=buffered, K=K), cost=20))
         js.append(Job("uartfifo_d4", build_cdc, dict(depth=4, buffered=False, K=14, kind="uartfifo"), cost=10))
+        js.append(Job("cdc_same_domain_pix_buffered", build_cdc_same_domain, dict(buffered=True, K=14), cost=5))
         js.append(Job("cdc_common_rst_d4", build_cdc_rst, dict(depth=4, K=14), cost=20))
         for ch in ("aw", "b", "r"):
             js.append(Job("axilite_cdc_%s" % ch, build_axil_cdc, dict(K=14, channel=ch), cost=20))
